@@ -92,7 +92,7 @@ def check_formulas(ctx):
         except symeval.Undecided as e:
             ctx.undecided_item("C05.1", site, "UNDECIDED(form): %s" % e)
             continue
-        rets = [o for o in outs if o.kind == "return"]
+        rets = _split_conditional_values([o for o in outs if o.kind == "return"])
         ctx.need(rets and not [o for o in outs if o.kind == "fallthrough"], "%s: no return / falls off the end" % site)
         main = [o for o in rets if not o.is_nan()]
         nans = [o for o in rets if o.is_nan()]
@@ -126,7 +126,12 @@ def check_formulas(ctx):
         # C05.2 perfect forecast
         perfect = prog.attr_const(c, "perfect_score")
         orientation = prog.attr_const(c, "orientation", 0)
-        if perfect is not None and orientation != 0:
+        rank_defect = any(f_.rule == "C05.3" and f_.site == site for f_ in ctx.findings)
+        if perfect is not None and orientation != 0 and rank_defect:
+            # the perfect-forecast value is wrong BECAUSE argsort is used as a rank: one defect, reported once (by C05.3, with the
+            # construct that causes it), however the rest of the body is written
+            ctx.note("C05.2 %s: not evaluated, the score uses argsort as a rank (reported by C05.3)" % c.name)
+        if perfect is not None and orientation != 0 and not rank_defect:
             for o in main:
                 try:
                     v = form.subst(o.value, {"fcst": obs})
@@ -320,6 +325,50 @@ def check_conditional_axes(ctx):
                    loc=prog.loc(m, o.node), msg="%s computes %s" % (cname, o.value), expected=str(ref), found=str(o.value))
         ctx.ob("C05.7", c.qual + ".compute_from_obs_fcst", any(o.is_nan() for o in outs), "empty bin gives NaN",
                loc=prog.loc(m, c.node), msg="%s has no NaN return for an empty bin" % cname)
+
+
+def _split_conditional_values(rets, depth=0):
+    """A returned value that contains a conditional inside its arithmetic - 1 / (2 - (nan if d == 0 else 1 - n / d)), typically a
+    helper's guarded result used further - is the same as two guarded returns: the conditional is lifted out (NaN absorbs arithmetic)."""
+    out = []
+    for o in rets:
+        v = o.value
+        cond_atom = None
+        if isinstance(v, Rat) and depth < 3 and v.as_atom("ifexp") is None:
+            for a in v.atoms(deep=False):
+                if a.func == "ifexp" and len(a.args) == 3 and all(isinstance(x, Rat) for x in a.args):
+                    cond_atom = a
+                    break
+        if cond_atom is None:
+            if isinstance(v, Rat) and v.as_atom("ifexp") is not None and depth < 3:
+                a = v.as_atom("ifexp")
+                if len(a.args) == 3 and all(isinstance(x, Rat) for x in a.args):
+                    parts = []
+                    for pol, br in ((True, a.args[1]), (False, a.args[2])):
+                        o2 = symeval.Outcome(list(o.conds) + [(a.args[0], pol)], br, o.kind, o.node)
+                        o2.divs, o2.logs, o2.env = list(o.divs), list(o.logs), o.env
+                        parts.append(o2)
+                    out.extend(_split_conditional_values(parts, depth + 1))
+                    continue
+            out.append(o)
+            continue
+        parts = []
+        for pol, br in ((True, cond_atom.args[1]), (False, cond_atom.args[2])):
+            try:
+                nv = Rat.sym("nan") if br.key() == "$nan" else form.map_atoms(v, lambda a_: br if a_ is cond_atom else None)
+            except form.Undefined:
+                nv = None
+            if nv is None:
+                parts = None
+                break
+            o2 = symeval.Outcome(list(o.conds) + [(cond_atom.args[0], pol)], nv, o.kind, o.node)
+            o2.divs, o2.logs, o2.env = list(o.divs), list(o.logs), o.env
+            parts.append(o2)
+        if parts is None:
+            out.append(o)
+        else:
+            out.extend(_split_conditional_values(parts, depth + 1))
+    return out
 
 
 def run(ctx):
